@@ -64,7 +64,7 @@ class PropertyName(Node):
  
 
     def generate_lingo(self, indentation: int) -> str: 
-        if self.name in KNOWN_SYMBOLS or isinstance(self, DefinedPropertyName):
+        if isinstance(self, DefinedPropertyName):
             return self.name
         else:
             return vsprintf("the %s", self.name)
